@@ -478,6 +478,14 @@ pub fn install_panic_hook() {
     }));
 }
 
+/// Panic location as a signature class ("panic@src/mach/val.rs:42").
+pub fn panic_class(msg: &str) -> String {
+    let loc = msg.rsplit(" at ").next().unwrap_or("");
+    let loc = loc.rsplit("/repo/").next().unwrap_or(loc);
+    let loc = if loc.contains("/rustc/") { loc.rsplit("library/").next().unwrap_or(loc) } else { loc };
+    format!("panic@{}", loc)
+}
+
 /// Run `f`, turning a panic into Err(message).
 pub fn guard<T, F: FnOnce() -> T>(f: F) -> Result<T, String> {
     match std::panic::catch_unwind(std::panic::AssertUnwindSafe(f)) {
